@@ -40,7 +40,7 @@ REVERTS = [
     ('F40-critical-experimental-subpacket', '70b60a0', {'C15': ['S15-6:critical-unknown-covers-opaque-types']}),
     ('F41-inline-hash-strength', 'dc56f4e', {'C15': ['S15-8:hash-strength:composed::message::types::Message']}),
     ('F42-ring-cross-group', '1f13ec7', {'C18': ['ring:cross-group-consistency']}),
-    ('F43-signed-many-slot-misalignment', '01487b1', {'C02': ['S02-9:slots-pushed-in-pairs']}),
+    ('F43-signed-many-slot-misalignment', '01487b1', {'C02': ['S02-9:slots-pushed-in-pairs'], 'C06': ['S02-9:slots-pushed-in-pairs']}),
     ('F44-v3-signature-subpacket-push', '1db2fe1', {'C05': ['S05-13:adjusts-only-what-is-written:packet::signature::types::Signature::unhashed_subpacket_insert:unhashed_subpackets']}),
     ('F45-mpi-bit-count-truncated', 'e4348ba', {'C05': ['cast:<types::mpi::Mpi as ser::Serialize>::to_writer:u16#1']}),
     ('F47-read-again-after-error-panics', 'fc88375', {'C04': ['poison:returns-error:<armor::reader::Dearmor<R> as std::io::Read>::read:Part::Temp#1', 'poison:returns-error:composed::message::reader::literal::LiteralDataReader::<R>::fill_inner:via:is_done#1']}),
